@@ -157,13 +157,44 @@ func c03RequestFrame(p *Prog, r *Report) {
 				return
 			}
 			isRaw := typeIs(cm.Args[0].Type(), "frame", "RawFrame")
-			fromReq := false
-			for _, o := range origins(cm.Args[0]) {
-				if cc, ok := o.(*ssa.Call); ok && cc.Call.IsInvoke() && cc.Call.Method.Name() == "Frame" {
-					fromReq = true
+			// the encoded frame is the request's frame or a copy of it (own header, same body)
+			var fromReqV func(v ssa.Value, depth int) bool
+			fromReqV = func(v ssa.Value, depth int) bool {
+				if depth > 4 {
+					return false
 				}
+				for _, o := range origins(v) {
+					switch x := o.(type) {
+					case *ssa.Call:
+						if x.Call.IsInvoke() && x.Call.Method.Name() == "Frame" {
+							return true
+						}
+						if callee := x.Call.StaticCallee(); callee != nil && p.InRepo(callee) {
+							for _, a := range x.Call.Args {
+								if fromReqV(a, depth+1) {
+									return true
+								}
+							}
+						}
+					case *ssa.Alloc:
+						for _, ref := range *x.Referrers() {
+							fa, ok := ref.(*ssa.FieldAddr)
+							if !ok || fieldOfAddr(fa).Name() != "Body" {
+								continue
+							}
+							for _, rr := range *fa.Referrers() {
+								if st, ok := rr.(*ssa.Store); ok && st.Addr == ssa.Value(fa) {
+									if _, base := loadedField(st.Val); base != nil && fromReqV(base, depth+1) {
+										return true
+									}
+								}
+							}
+						}
+					}
+				}
+				return false
 			}
-			if !fromReq {
+			if !fromReqV(cm.Args[0], 0) {
 				return
 			}
 			n++
